@@ -30,23 +30,23 @@ pub struct Budget {
 pub fn budget(prop: &str, tier: &str) -> Budget {
     let quick = tier != "thorough";
     let (q, t): (u64, u64) = match prop {
-        "C01" => (40_000, 1_500_000),
-        "C02" => (60_000, 2_000_000),
-        "C03" => (1_500, 40_000),
-        "C04" => (40_000, 1_200_000),
-        "C05" => (40_000, 1_500_000),
-        "C06" => (40_000, 1_200_000),
-        "C07" => (30_000, 1_000_000),
-        "C08" => (30_000, 1_000_000),
-        "C09" => (6_000, 200_000),
-        "C10" => (3_000, 100_000),
-        "C11" => (20_000, 600_000),
-        "C14" => (30_000, 1_000_000),
-        "C15" => (40_000, 1_200_000),
-        "C17" => (60_000, 2_000_000),
-        "C18" => (30_000, 1_000_000),
-        "C19" => (10_000, 300_000),
-        "C20" => (30_000, 1_000_000),
+        "C01" => (40_000, 6_000_000),
+        "C02" => (60_000, 4_000_000),
+        "C03" => (1_500, 100_000),
+        "C04" => (40_000, 6_000_000),
+        "C05" => (40_000, 8_000_000),
+        "C06" => (40_000, 2_400_000),
+        "C07" => (30_000, 4_000_000),
+        "C08" => (30_000, 6_000_000),
+        "C09" => (6_000, 5_000_000),
+        "C10" => (3_000, 400_000),
+        "C11" => (20_000, 3_000_000),
+        "C14" => (30_000, 20_000_000),
+        "C15" => (40_000, 5_000_000),
+        "C17" => (60_000, 20_000_000),
+        "C18" => (30_000, 4_000_000),
+        "C19" => (10_000, 1_500_000),
+        "C20" => (30_000, 5_000_000),
         _ => (10_000, 100_000),
     };
     let mut cases = if quick { q } else { t };
@@ -124,8 +124,11 @@ pub fn worker(prop: &str, seed: u64, w: u64, nw: u64, count: u64, out_path: &str
         out.sim_ns += ev.sim_ns;
         out.sim_calls += ev.sim_calls;
         let h = crate::rng::fnv64(ev.signature.as_bytes());
-        out.sigs.insert(h);
-        if ev.nontrivial {
+        // the sets are only a measure of variety: stop growing them at 250k entries per worker
+        if out.sigs.len() < 250_000 {
+            out.sigs.insert(h);
+        }
+        if ev.nontrivial && out.nontrivial_sigs.len() < 250_000 {
             out.nontrivial_sigs.insert(h);
         }
         for (k, n) in ev.counters {
